@@ -26,6 +26,9 @@ WRAPPERS = {          # name -> (prefix, suffix, allows_scoped_ops)
     # coverage probe (cli/manipulations.py:_resolve_target_set_from_expr): the remaining ways the edited set is reached
     'paren': ('(', ')', False), 'call_paren_arg': ('mk (', ')', False), 'call_curried': ('mk extra ', '', False), 'call_nested': ('outer (inner ', ')', False),
     'with_assert': ('with pkgs;\nassert cond;\n', '', False), 'lambda_with': ('{ pkgs }:\nwith pkgs;\n', '', False),
+    # tenth round: parenthesised callees below a curried application, attribute selection as callee, curried three deep
+    'call_paren_head': ('(f x) y ', '', False), 'call_paren_head2': ('((f x) y) ', '', False), 'lambda_call_paren_head': ('{ pkgs }:\n(pkgs.lib.makeOverridable mk) pkgs ', '', False),
+    'call_curried3': ('mk a b c ', '', False), 'with_assert_call_paren': ('with pkgs;\nassert true;\n(callPackage ./generic.nix) extra ', '', False),
     'let_ident': ('let\n  cfg = ', ';\nin\ncfg', False), 'let_call_ident': ('let\n  cfg = ', ';\nin\nmk cfg', False),
 }
 INDENTED_BODY = ('let_ident', 'let_call_ident')
